@@ -133,6 +133,20 @@ CHECKS = {
   design_ref="DESIGN.md §4 C18",
   technique="model-based fork scenarios (proptest) + chain-derived ground-truth oracle",
   note=TRUST + "; only owner.scan is required to report the revert (statement); what a plain refresh does after a reorg is recorded, not judged"),
+ "C16": dict(
+  engine="world",
+  category="exploration",
+  text="(restore) generated multi-account chain histories with node page sizes {1,2,3,7,64,1000}; a new wallet from the same phrase restored by owner.scan or by a plain refresh must record exactly the seed's unspent outputs found by an independent rewind (commitment, value, height, coinbase, lock height, key path, account), reproduce the original wallet's per-account figures, be unchanged by a second scan and hand out its next key beyond every path on chain; (repair) divergences injected through the public batch API, cancel-after-broadcast and reorganisations, then scan(start, delete_unconfirmed) twice: records and balances equal the chain's truth and the second scan leaves the raw DB byte-identical; start heights None/1/every height/tip/tip+1; thorough adds a chain with >1000 unspent outputs.",
+  design_ref="DESIGN.md §4 C16",
+  technique="model-based histories + divergence injection (proptest) + chain-derived ground-truth / idempotence oracle",
+  note=TRUST + "; an output's account is the account its creating operation addressed; operations naming a non-active account are a separate counted class (open known finding)"),
+ "C20": dict(
+  engine="sched",
+  category="exploration",
+  text="Cooperative scheduler over real threads using the wallet_lock! hook: exactly one thread runs between wallet-lock acquisitions; one refresh/scan thread plus 1..3 operation threads (init, lock, receive, finalize, cancel, refresh) and the node event 'block accepted'. R + one lock-holding operation: every schedule enumerated; multi-section operations preemption-bounded; larger configurations sampled over the choice sequence. The projected final state and every operation's result class must equal those of some serial order of the same operations from the same on-disk start state. A running thread that neither parks nor finishes within 60 s => exit 2 with the schedule saved.",
+  design_ref="DESIGN.md §4 C20",
+  technique="owned-schedule exploration (exhaustive for small configurations, proptest-sampled otherwise) + serialisability oracle against all serial orders",
+  note=TRUST + "; interleavings only at wallet-lock acquisitions (all wallet state is behind that mutex); node-unreachable events and the Updater::run timing loop are not covered"),
 }
 
 hooks_commits = subprocess.run(["git", "-C", "/repo", "log", "--format=%h %s"], stdout=subprocess.PIPE, text=True).stdout.splitlines()
@@ -166,6 +180,9 @@ m = {
  },
  "engines": [
   {"name": "pbt", "path": "harness/src/rt.rs + harness/src/props", "serves_properties": [p for p in ids if p in CHECKS and CHECKS[p]["engine"].startswith("pbt")], "kind_free_text": "proptest strategies driven per case by TestRunner with a seed derived from (VERIF_SEED, property, part, tier, index); shrinking yields the replay file"},
+  {"name": "sched", "path": "harness/src/sched.rs", "serves_properties": ["C20"], "kind_free_text": "cooperative scheduler over real threads; a schedule is a generated or enumerated sequence of which-thread-runs-next choices at wallet-lock acquisitions (hook before_wallet_lock)"},
+  {"name": "fault", "path": "harness/src/fault.rs + harness/fsfault/fsfault.c", "serves_properties": ["C06","C15","C12"], "kind_free_text": "persistent-effect fault injection by wrapping the public backend traits; LD_PRELOAD shim killing a child process at file-operation boundaries of the seed file"},
+  {"name": "fuzz", "path": "harness/fuzz + harness/fuzz-c13", "serves_properties": ["C09","C13"], "kind_free_text": "cargo-fuzz / libFuzzer targets with the semantic oracle inside the target (thorough tier)"},
   {"name": "world", "path": "harness/src/world.rs + node.rs + snap.rs", "serves_properties": [p for p in ids if p in CHECKS and CHECKS[p]["engine"] in ("world","fault","world+fault","world+pbt+fsfault")], "kind_free_text": "stateful model-based: real grin chain + real LMDB wallets + thread-free node client, op sequences interpreted against the real API with invariants after every step"},
  ],
  "checks": checks,
